@@ -6,7 +6,7 @@
 (*  C20: for every thread count the result bytes equal the single-threaded ones, and the H3     *)
 (*       log of executed work items is the partition of Partition.tla: every item of            *)
 (*       [first, first+n) exactly once, item i by thread (i - first) div ceil(n / threads).     *)
-EXTENDS Integers, Sequences, FiniteSets, TLC, Json, IOUtils, WordOps
+EXTENDS Integers, Sequences, FiniteSets, TLC, Json, IOUtils, WordOps, Select
 
 Rec == ndJsonDeserialize(IOEnv.TRACE)
 VARIABLES i, bad
@@ -32,6 +32,36 @@ PartitionOK(o) ==
 \* slt / sltu produce one output bit; the circuit's output size is what the library reports through the log length
 NItems(e, o) == IF e.kind = "word" /\ e.op \in {"slt", "sltu"} THEN 1 ELSE o.nitems
 
+\* ---- oblivious data movement (Select.tla): decoded plaintexts are sparse lists << <<index, value>>, .. >>
+Enc(v) == IF v = ZERO THEN <<>> ELSE << <<0, v>> >>
+ItemOf(x) == IF Len(x) = 1 /\ x[1][1] = 0 THEN x[1][2] ELSE -1
+BlindOK(e) ==
+  LET o == e.outs[1]
+      kb == e.abits
+  IN /\ Len(e.outs) = 1 /\ o.panic = ""
+     /\ CASE e.op = "select" ->
+               LET S == {e.keys[j] : j \in 1..Len(e.keys)} IN o.res[1] = Enc(SelectSpec([x \in S |-> x + 1], kb, e.rsh, e.mask))
+          [] e.op = "retrieval" ->
+               LET fwd == [j \in 1..e.n |-> ItemOf(o.res[1][j])]
+                   rev == [j \in 1..e.n |-> ItemOf(o.res[2][j])]
+                   d == [j \in 1..e.n |-> j]
+               IN /\ Len(o.res[1]) = e.n /\ Len(o.res[2]) = e.n
+                  /\ RetrSpec(d, fwd, kb, e.rsh, e.mask)
+                  /\ {fwd[j] : j \in 1..e.n} = 1..e.n
+                  /\ rev = d
+          [] e.op = "retriever" ->
+               /\ Len(o.res) = Len(e.rounds)
+               /\ \A r \in 1..Len(e.rounds) :
+                    LET added == [k \in 1..e.rounds[r] |-> 10 * (r - 1) + k]
+                    IN \E v \in RetrieverSpec(added, kb, e.rsh, CeilLog2(e.size)) : o.res[r] = Enc(v)
+          [] e.op = "retrieve" ->
+               LET added == [k \in 1..e.n |-> k] IN \E v \in RetrieverSpec(added, kb, e.rsh, CeilLog2(e.size)) : o.res[1] = Enc(v)
+          [] e.op = "cswap" ->
+               (IF Bit(kb, e.rsh) = 1 THEN o.res = << Enc(2), Enc(1) >> ELSE o.res = << Enc(1), Enc(2) >>)
+          [] OTHER ->   \* rotate / rotate_assign: the monomial val * X^pos times X^RotExp
+               LET N == 256
+                   t == (e.pos + RotExp(kb, e.rsh, e.mask, e.lsh, e.neg)) % (2 * N)
+               IN o.res[1] = << << (IF t < N THEN t ELSE t - N), (IF t < N THEN e.val ELSE -e.val) >> >>
 SemOK(e) ==
   CASE e.kind = "word" -> \A k \in 1..Len(e.outs) : e.outs[k].panic = "" /\ WordOK(e.op, e.abits, e.bbits, e.outs[k].out)
     [] e.kind = "prep" -> \A k \in 1..Len(e.outs) : /\ e.outs[k].panic = ""
@@ -45,6 +75,7 @@ SemOK(e) ==
                           [] e.op = "splice_u16" -> (IF k \div 16 = e.i0 THEN Bb(16 * e.i1 + (k % 16)) ELSE Ab(k))
                           [] OTHER -> (IF k = 0 THEN Ab(e.i0) ELSE 0)           \* get_bit: the selected bit as the word 0 / 1
          IN \A o \in 1..Len(e.outs) : e.outs[o].panic = "" /\ \A k \in 0..31 : e.outs[o].out[k + 1] = Want(k)
+    [] e.kind = "blind" -> BlindOK(e)
     [] e.kind = "shared" -> \A k \in 1..Len(e.outs) : e.outs[k].panic = "" /\ WordOK(e.outs[k].op, e.abits, e.bbits, e.outs[k].out)
     [] OTHER ->  \* chain
          LET RECURSIVE Go(_, _)
@@ -54,10 +85,10 @@ SemOK(e) ==
                                 /\ Go(k + 1, e.outs[k].out)
          IN Len(e.outs) = Len(e.ops) /\ Go(1, e.abits)
 ThreadsOK(e) ==
-  CASE e.kind \in {"chain", "surgery"} -> TRUE
+  CASE e.kind \in {"chain", "surgery", "blind"} -> TRUE
     [] e.kind = "shared" -> \A k \in 1..Len(e.outs) : \A j \in 1..Len(e.outs[k].conc) : e.outs[k].conc[j] = e.outs[k].digest     \* shared module / key / operands
     [] OTHER -> \A k \in 1..Len(e.outs) : e.outs[k].digest = e.outs[1].digest
-PartOK(e) == e.kind \in {"chain", "shared", "surgery"} \/ \A k \in 1..Len(e.outs) : e.outs[k].panic # "" \/ PartitionOK([e.outs[k] EXCEPT !.nitems = NItems(e, e.outs[k])])
+PartOK(e) == e.kind \in {"chain", "shared", "surgery", "blind"} \/ \A k \in 1..Len(e.outs) : e.outs[k].panic # "" \/ PartitionOK([e.outs[k] EXCEPT !.nitems = NItems(e, e.outs[k])])
 Verdict(e, k) ==
      (IF SemOK(e) THEN <<>> ELSE << <<k, "sem">> >>)
   \o (IF ThreadsOK(e) THEN <<>> ELSE << <<k, "threads">> >>)
